@@ -329,7 +329,9 @@ Section L2T.
         match c with
         | CConst x => (x, st)
         | CAccent comb =>
-            let '(ss, st1) := asingles sl st args in
+            (* [make_accented_char]: [l2tobj._groupnodecontents_to_text(nodearg)] -- the CONTENTS of a
+               group argument (never its braces), a single-token argument as [node_to_text] *)
+            let '(ss, st1) := atexts sl st args in
             if Nat.ltb off (length al) then (accent_text comb (Some (nth_s ss off)), st1)
             else (accent_text comb None, st)
         | CMathStyle style =>
